@@ -398,8 +398,8 @@ func (d *drv) runAsync(t int, u *Universe, ops []op) {
 	}
 	select {
 	case <-gotInSync:
-	case <-time.After(20 * time.Second):
-		fmt.Fprintln(os.Stderr, "async leg: no InSync message within 20s")
+	case <-time.After(180 * time.Second):
+		fmt.Fprintln(os.Stderr, "async leg: no InSync message within 180s")
 		os.Exit(2)
 	}
 	time.Sleep(20 * time.Millisecond)
